@@ -243,6 +243,31 @@ theorem free_name_is_driven (env : Env) (s : State) (r i : Nat) (hidle : s.pc r 
     (step env s (.tryLock r i)).1.pc r i = .locked s.locks.issued := by
   simp [step, hidle, hin, hl, hfree, hlive]
 
+/-- A configured updater is skipped because of the lock exactly when, at that
+    moment, a worker of an updater with the same name (of this or of a
+    concurrent run) holds it. -/
+theorem skipped_iff_same_name_holder (env : Env) (hist : List Op) (evs : List Ev) (r i : Nat)
+    (hidle : (reach env hist evs).pc r i = .idle) (hin : i ∈ env.toRun r)
+    (hlt : ((reach env hist evs).run r).tried.length < ((reach env hist evs).run r).launchedN) :
+    (step env (reach env hist evs) (.tryLock r i)).2 = .lock false false ↔
+      ∃ r' i' g, ((reach env hist evs).pc r' i').holds = some g ∧ (env.upd i').name = (env.upd i).name := by
+  have hl : InvL env (reach env hist evs) := (inv_run env hist evs).l
+  generalize reach env hist evs = s at hidle hlt hl ⊢
+  have hheld : (env.upd i).name ∈ s.locks.held ↔
+      ∃ r' i' g, (s.pc r' i').holds = some g ∧ (env.upd i').name = (env.upd i).name := by
+    rw [hl.locks.heldIff]
+    constructor
+    · intro hm
+      obtain ⟨gr, hgr, hk⟩ := List.mem_map.1 hm
+      obtain ⟨r', i', h1, h2, _⟩ := hl.owner gr hgr
+      exact ⟨r', i', gr.gid, h1, by rw [← h2, hk]⟩
+    · rintro ⟨r', i', g, hg, hn⟩
+      exact List.mem_map.2 ⟨_, hl.grant r' i' g hg, hn⟩
+  rw [← hheld]
+  by_cases hk : (env.upd i).name ∈ s.locks.held
+  · simp [step, hidle, hin, hlt, hk]
+  · by_cases hd : dead s r = true <;> simp [step, hidle, hin, hlt, hk, hd]
+
 /-! ### the returned error, waiting, parallelism, cancellation -/
 
 /-- `Run` returns the instances whose driveUpdater failed — all of them and
